@@ -21,6 +21,11 @@ hypothesis says otherwise.
   every release build without a digit-separator byte (no `format` feature, or a `format` build whose format has no
   separator — base prefix/suffix and all syntax flags allowed) when mantissa digits are required; numbers
   unconditionally, specials under `SpecialHeadsOK`.
+* `partial_prefix_number` (+ `partial_prefix_model_number`, `parseNumber_prefix`, `partial_prefix_phases`): number
+  results for the larger class `NumContig` — a separator byte may exist as long as the integer, fraction and exponent
+  components have no separator flag (separator in special values only). There the buffer is not contiguous and the
+  digit counts of `parse_number` come from `increment_count`; the proof needs every digit to be counted exactly once,
+  which holds since /repo 7e8a135 (8-digit blocks) — `regression_*` below are the former failing inputs.
 -/
 namespace LexVerif.Props.C11
 open LexVerif LexVerif.Model LexVerif.Spec
@@ -308,10 +313,48 @@ theorem not_partial_prefix_full : ¬ partial_prefix_full := by
     witness_B_radix24_syntax.2] at this
   cases this
 
+/-! ## regressions of the two repaired counting defects (/repo 7e8a135, 12a2453)
+
+Formats whose separator flags sit on some components only (here: `_` allowed between fraction digits only,
+`c13_dec_fra_i`): the integer iterator is contiguous while the buffer is not. Before the repairs the digits of the
+8-digit fast loop were not counted (`12345678` → `EmptyMantissa` from the complete AND the partial parser — both
+relations of C11 held vacuously on such inputs); now both entry points return the value and the two relations hold
+with content. -/
+
+def fmtSepFracI : Format := ⟨0xa0a0a000000005f000000020000000c⟩   -- c13_dec_fra_i
+
+/-- (A) on `12345678`: complete = 12345678.0, partial = (12345678.0, 8 = length) -/
+theorem regression_A_sep_format_8digit_block :
+    parseFloatModel featsRadixFormat fmtSepFracI {} false f64 [49, 50, 51, 52, 53, 54, 55, 56]
+      = "ok 41678c29c0000000 -" ∧
+    parseFloatModel featsRadixFormat fmtSepFracI {} true f64 [49, 50, 51, 52, 53, 54, 55, 56]
+      = "ok 41678c29c0000000 8" := by decide +kernel
+
+/-- (B) on `12345678x`: partial = (12345678.0, 8), complete on the first 8 bytes = 12345678.0; and through the fraction
+separator: partial `123456789.1_2x` = (123456789.12, 13) = complete `123456789.1_2` -/
+theorem regression_B_sep_format_8digit_block :
+    (parseFloatModel featsRadixFormat fmtSepFracI {} true f64 [49, 50, 51, 52, 53, 54, 55, 56, 120]
+      = "ok 41678c29c0000000 8" ∧
+     parseFloatModel featsRadixFormat fmtSepFracI {} false f64 ([49, 50, 51, 52, 53, 54, 55, 56, 120].take 8)
+      = "ok 41678c29c0000000 -") ∧
+    (parseFloatModel featsRadixFormat fmtSepFracI {} true f64 [49, 50, 51, 52, 53, 54, 55, 56, 57, 46, 49, 95, 50, 120]
+      = "ok 419d6f34547ae148 13" ∧
+     parseFloatModel featsRadixFormat fmtSepFracI {} false f64
+        ([49, 50, 51, 52, 53, 54, 55, 56, 57, 46, 49, 95, 50, 120].take 13) = "ok 419d6f34547ae148 -") := by
+  decide +kernel
+
+/-- the same on the syntax layer: the number carries all eight integer digits -/
+theorem regression_sep_format_syntax :
+    parseFloatSyntax ⟨featsRadixFormat, fmtSepFracI, false⟩ {} true [49, 50, 51, 52, 53, 54, 55, 56, 120]
+      = .ok (.number ⟨12345678, 0, false, false, [49, 50, 51, 52, 53, 54, 55, 56], none, 0⟩ 8) ∧
+    parseFloatSyntax ⟨featsRadixFormat, fmtSepFracI, false⟩ {} false [49, 50, 51, 52, 53, 54, 55, 56]
+      = .ok (.number ⟨12345678, 0, false, false, [49, 50, 51, 52, 53, 54, 55, 56], none, 0⟩ 8) := by decide +kernel
+
 /-! ## (B) proved part 1: truncation of the phases of `parse_number`
 
-Setting: release build, no digit-separator byte (`Rel c`, `c.bytesContiguous`): the build without the `format`
-feature and every `format` build whose format has no separator (base prefix/suffix, all syntax flags allowed).
+Setting: release build (`Rel c`) and `NumContig c`: no digit-separator byte, or no separator flag on the integer,
+fraction and exponent components — the build without the `format` feature and every `format` build whose format has no
+separator inside numbers (base prefix/suffix, all syntax flags, a separator in special values allowed).
 `trunc n b` cuts the buffer after `n` bytes. Each phase that returns with its cursor at `i ≤ n` returns the same
 result on the truncated buffer (bytes at positions `≥ i` are inspected only to decide to stop). -/
 
@@ -319,7 +362,7 @@ result on the truncated buffer (bytes at positions `≥ i` are inspected only to
 the cursor only moves forward and stays inside the buffer. (The digit loops, `parse_sign!`, prefix and suffix are
 `parseDigits_trunc`, `tryParse8_trunc`, `parse8Digits_trunc`, `parseSign_trunc`, `prefixPhase_trunc`,
 `suffixPhase_trunc` in `Proof/ParseNumberC11Trunc.lean`.) -/
-theorem partial_prefix_phases (c : Cfg) (o : POpts) (hc : Proof.PNTotal.Rel c) (hb : c.bytesContiguous = true)
+theorem partial_prefix_phases (c : Cfg) (o : POpts) (hc : Proof.PNTotal.Rel c) (hb : NumContig c)
     (b : Bytes) (hv : C12.Bytes.Valid b) :
     (∀ ip, integerPhase c b = .ok ip →
       b.index ≤ ip.byte.index ∧ ip.byte.index ≤ b.slc.length ∧
@@ -459,13 +502,13 @@ theorem specialHeadsOK_of_valid (c : Cfg) (o : POpts) (hopt : optionsError o = n
             · rw [if_pos hc] at hinfy; cases hinfy
             · exact hhead str 73 105 (Or.inl ⟨rfl, rfl⟩) (by simpa using hc)
 
-/-! ## (B) proved part 2: `partial_prefix` without a digit-separator byte (release build) -/
+/-! ## (B) proved part 2: `partial_prefix` without a digit separator inside numbers (release build) -/
 
 /-- `parse_number` returns the same number and count on every truncation of the buffer at or beyond its count; the
 count is inside the buffer and at least one byte was consumed (includes base prefix/suffix and the many-digits
 re-parse) -/
 theorem parseNumber_prefix (c : Cfg) (p : Bool) (o : POpts) (b : Bytes) (neg fv : Bool) (r : Number)
-    (count : Nat) (hc : Proof.PNTotal.Rel c) (hb : c.bytesContiguous = true) (hr : 1 ≤ c.mantissaRadix)
+    (count : Nat) (hc : Proof.PNTotal.Rel c) (hb : NumContig c) (hr : 1 ≤ c.mantissaRadix)
     (hm : c.requiredMantissaDigits = true) (hv : C12.Bytes.Valid b) (h : parseNumber c p o b neg fv = .ok (r, count)) :
     b.index < count ∧ count ≤ b.slc.length ∧
     ∀ n, count ≤ n → parseNumber c p o (trunc n b) neg fv = .ok (r, count) :=
@@ -482,13 +525,42 @@ theorem partial_prefix_contiguous (c : Cfg) (o : POpts) (s : List Nat) (p : Pars
     parseFloatSyntax c o false (s.take (pcount p)) = .ok p :=
   partial_prefix_g hc hb o s true p hr hm hrad hh h
 
-/-- number results: every input, every options -/
+/-- **C11 (B), number results, no digit separator inside numbers** (`NumContig`: no separator byte, or no separator flag
+on integer / fraction / exponent — the special values may take separators): every input, every options -/
+theorem partial_prefix_number (c : Cfg) (o : POpts) (s : List Nat) (x : Number) (cnt : Nat)
+    (hc : Proof.PNTotal.Rel c) (hn : NumContig c) (hr : 1 ≤ c.mantissaRadix)
+    (hm : c.requiredMantissaDigits = true)
+    (h : parseFloatSyntax c o true s = .ok (.number x cnt)) :
+    parseFloatSyntax c o false (s.take cnt) = .ok (.number x cnt) :=
+  partial_prefix_number_g hc hn o s true x cnt hr hm h
+
+/-- `special_digit_separator` alone (`_` in special values only; bit 44) -/
+def fmtSepSpecialOnly : Format := ⟨0xa0a0a000000005f000010000000000c⟩
+
+/-- non-vacuity of `NumContig` beyond "no separator byte": the buffer of `fmtSepSpecialOnly` is not contiguous, the
+format is valid, and `12345678x` (8-digit fast loop, digits counted by `increment_count`) → count 8 -/
+example : NumContig ⟨featsRadixFormat, fmtSepSpecialOnly, false⟩ ∧
+    (⟨featsRadixFormat, fmtSepSpecialOnly, false⟩ : Cfg).bytesContiguous = false ∧
+    (⟨featsRadixFormat, fmtSepSpecialOnly, false⟩ : Cfg).specialSep = true ∧
+    formatError featsRadixFormat fmtSepSpecialOnly = none ∧
+    (⟨featsRadixFormat, fmtSepSpecialOnly, false⟩ : Cfg).requiredMantissaDigits = true ∧
+    parseFloatSyntax ⟨featsRadixFormat, fmtSepSpecialOnly, false⟩ {} true [49, 50, 51, 52, 53, 54, 55, 56, 120]
+      = .ok (.number ⟨12345678, 0, false, false, [49, 50, 51, 52, 53, 54, 55, 56], none, 0⟩ 8) := by
+  refine ⟨Or.inr ?_, by decide +kernel, by decide +kernel, by decide +kernel, by decide +kernel, by decide +kernel⟩
+  intro k hk
+  cases k with
+  | special => exact absurd rfl hk
+  | integer => decide +kernel
+  | fraction => decide +kernel
+  | exponent => decide +kernel
+
+/-- number results without a separator byte (special case of `partial_prefix_number`) -/
 theorem partial_prefix_contiguous_number (c : Cfg) (o : POpts) (s : List Nat) (x : Number) (cnt : Nat)
     (hc : Proof.PNTotal.Rel c) (hb : c.bytesContiguous = true) (hr : 1 ≤ c.mantissaRadix)
     (hm : c.requiredMantissaDigits = true)
     (h : parseFloatSyntax c o true s = .ok (.number x cnt)) :
     parseFloatSyntax c o false (s.take cnt) = .ok (.number x cnt) :=
-  partial_prefix_number_g hc hb o s true x cnt hr hm h
+  partial_prefix_number c o s x cnt hc (NumContig.of_bytes hb) hr hm h
 
 /-- special results: under `SpecialHeadsOK` (class (iii), `witness_B_radix24_nan`, shows that a hypothesis of this kind
 is necessary) -/
@@ -583,6 +655,40 @@ theorem partial_prefix_model (feats : Features) (fmt : Format) (o : POpts) (f : 
   rw [parseFloatModel_of_valid feats fmt o true f s false h1 h2 h3 h4,
     parseFloatModel_of_valid feats fmt o false f _ false h1 h2 h3 h4, h, hc]
   exact ⟨rfl, rfl⟩
+
+/-- C11 (B) at the API level for number results under `NumContig` (a separator byte may exist when integer, fraction
+and exponent have no separator flag): no restriction on the radix, the decimal point or the special strings -/
+theorem partial_prefix_model_number (feats : Features) (fmt : Format) (o : POpts) (f : Fmt) (s : List Nat)
+    (x : Number) (cnt : Nat)
+    (hn : NumContig ⟨feats, fmt, false⟩)
+    (hm : (⟨feats, fmt, false⟩ : Cfg).requiredMantissaDigits = true)
+    (h1 : optionsError o = none) (h2 : formatError feats fmt = none)
+    (h3 : isValidOptionsPunctuation feats fmt o.exp o.dp = true) (h4 : checkRadix feats fmt = true)
+    (h : parseFloatSyntax ⟨feats, fmt, false⟩ o true s = .ok (.number x cnt)) :
+    parseFloatModel feats fmt o true f s = renderParsed ⟨feats, fmt, false⟩ f true (.number x cnt) ∧
+    parseFloatModel feats fmt o false f (s.take cnt) = renderParsed ⟨feats, fmt, false⟩ f false (.number x cnt) := by
+  have hvr : isValidRadix feats fmt.mantissaRadix = true := by
+    cases hc : isValidRadix feats fmt.mantissaRadix with
+    | true => rfl
+    | false => simp [formatError, hc] at h2
+  have hr : 1 ≤ fmt.mantissaRadix := by
+    unfold isValidRadix at hvr
+    split at hvr
+    · simp only [Bool.and_eq_true, decide_eq_true_eq] at hvr; omega
+    · split at hvr
+      · simp only [Bool.or_eq_true, decide_eq_true_eq] at hvr; omega
+      · simp only [decide_eq_true_eq] at hvr; omega
+  have hrel : Proof.PNTotal.Rel ⟨feats, fmt, false⟩ := Proof.PNTotal.rel_of_valid _ rfl (by simp [h2])
+  have hc := partial_prefix_number ⟨feats, fmt, false⟩ o s x cnt hrel hn hr hm h
+  rw [parseFloatModel_of_valid feats fmt o true f s false h1 h2 h3 h4,
+    parseFloatModel_of_valid feats fmt o false f _ false h1 h2 h3 h4, h, hc]
+  exact ⟨rfl, rfl⟩
+
+/-- non-vacuity (separator byte present, `fmtSepSpecialOnly`): "12345678x" → (12345678.0, 8), "12345678" → 12345678.0 -/
+example : parseFloatModel featsRadixFormat fmtSepSpecialOnly {} true f64 [49, 50, 51, 52, 53, 54, 55, 56, 120]
+      = "ok 41678c29c0000000 8" ∧
+    parseFloatModel featsRadixFormat fmtSepSpecialOnly {} false f64 [49, 50, 51, 52, 53, 54, 55, 56]
+      = "ok 41678c29c0000000 -" := by decide +kernel
 
 /-- non-vacuity: default features, STANDARD format: "1.5x" → (1.5, 3) and "1.5" → 1.5 -/
 example : parseFloatModel {} Format.standard {} true f64 [49, 46, 53, 120] = "ok 3ff8000000000000 3" ∧
